@@ -199,6 +199,33 @@ def _config(arg):
                     continue
                 res.nontrivial(n=len(pts))
                 _compare(res, rname, key, got, want, dict(case, segmentation=sname), None, sname)
+        # ---- segment-wise routes with an explicit atom per sector: sector k belongs to atom select[k]
+        # (a reversed and a rotated permutation, a proper sub-list, NumPy integers)
+        if n >= 2:
+            sels = {"reversed": list(range(n))[::-1], "rolled": [int(v) for v in np.roll(range(n), 1)],
+                    "sub-list": list(range(n))[1:], "numpy-ints": list(np.arange(n)[::-1])}
+            for sname, idx in segs.items():
+                for selname, sel in sels.items():
+                    m = len(sel)
+                    sub_idx = idx[: m + 1]
+                    sub_pts = pts[: sub_idx[-1]]
+                    if len(sub_pts) == 0:
+                        continue
+                    want = np.zeros(len(sub_pts))
+                    for k, a in enumerate(sel):
+                        want[sub_idx[k]:sub_idx[k + 1]] = W[int(a), sub_idx[k]:sub_idx[k + 1]]
+                    for rname, fn in (("generate_weights-select-list", lambda: bw.generate_weights(sub_pts, atcoords, atnums, select=sel, pt_ind=sub_idx)),
+                                      ("compute_weights-select-list", lambda: bw.compute_weights(sub_pts, atcoords, atnums, select=sel, pt_ind=sub_idx))):
+                        res.count(len(sub_pts))
+                        c2 = dict(case, segmentation=sname, select=[int(v) for v in sel])
+                        try:
+                            got = np.asarray(fn(), dtype=float)
+                        except Exception as exc:
+                            res.violation(f"{rname}:raised:{type(exc).__name__}", f"{rname}(select={sel}, pt_ind={sub_idx.tolist()}) raised "
+                                          f"{type(exc).__name__}: {exc}", c2)
+                            continue
+                        res.nontrivial(n=len(sub_pts))
+                        _compare(res, rname, key, got, want, c2, None, sname)
         # ---- larger point sets so that several chunks with cuts inside / on / between segments occur
         if full and n >= 4:
             rng = np.random.default_rng([seed, 99])
@@ -227,6 +254,53 @@ def _config(arg):
         res.violation("argument-modified", "points, coordinates or atomic numbers were modified", case)
     res.sample(dict(case, npoints=len(pts)))
     return res.as_dict()
+
+
+def _many_case(arg):
+    """Many atoms, few points: the whole-grid call then works in chunks of one to three points (the chunk length is
+    10 N / M^2, floored at one), so several whole segments lie before, inside and after every chunk."""
+    natoms, npts, order, seed = arg
+    from grid.becke import BeckeWeights
+
+    res = WorkerResult(section=f"becke:{natoms}-atoms")
+    rng = np.random.default_rng([seed, natoms, npts, 17])
+    lat = np.array(list(itertools.product(range(3), range(3), range(2))), dtype=float)[:natoms] * 1.9
+    atcoords = lat + rng.uniform(-0.2, 0.2, size=lat.shape)
+    atnums = np.array([(1, 6, 8, 1, 17, 7, 1, 16, 9, 1, 35, 1, 15, 3, 1, 86, 2, 1)[k] for k in range(natoms)])
+    pts = np.vstack([atcoords[: min(natoms, npts // 3)], rng.normal(size=(npts - min(natoms, npts // 3), 3)) * 3.0 + atcoords.mean(axis=0)])
+    table = bragg()
+    W = ref_weights(pts, atcoords, atnums, order, table)
+    bw = BeckeWeights(order=order)
+    case = {"route": "many", "natoms": natoms, "npoints": npts, "order": order}
+    key = f"{natoms}-atoms"
+    with warnings.catch_warnings():
+        warnings.simplefilter("ignore")
+        for sname, idx in segmentations(len(pts), natoms).items():
+            owner = np.zeros(len(pts), dtype=int)
+            for a in range(natoms):
+                owner[idx[a]:idx[a + 1]] = a
+            want = W[owner, np.arange(len(pts))]
+            for rname, fn in (("__call__", lambda: bw(pts, atcoords, atnums, idx)),
+                              ("generate_weights-segments", lambda: bw.generate_weights(pts, atcoords, atnums, pt_ind=idx)),
+                              ("compute_weights-segments", lambda: bw.compute_weights(pts, atcoords, atnums, pt_ind=idx))):
+                res.count(len(pts))
+                try:
+                    got = np.asarray(fn(), dtype=float)
+                except Exception as exc:
+                    res.violation(f"{rname}:raised:{type(exc).__name__}", f"{rname} with {natoms} atoms, {npts} points, segmentation "
+                                  f"{sname} raised {type(exc).__name__}: {exc}", dict(case, segmentation=sname))
+                    continue
+                res.nontrivial(n=len(pts))
+                _compare(res, rname, key, got, want, dict(case, segmentation=sname), None, sname)
+        for a in (0, natoms // 2, natoms - 1):
+            res.count(len(pts))
+            got = np.asarray(bw.compute_atom_weight(pts, atcoords, atnums, a), dtype=float)
+            _compare(res, "compute_atom_weight", key, got, W[a], case, a, None)
+    return res.as_dict()
+
+
+def _dispatch(job):
+    return _many_case(job[1:]) if job[0] == "many" else _config(job)
 
 
 def _motions(res, bw, pts, atcoords, atnums, n, case, full):
@@ -405,7 +479,11 @@ def configs(thorough):
 
 def run(ctx):
     jobs = [(g, a, o, ctx.seed, f) for g, a, o, f in configs(ctx.thorough)]
-    for res in lattice.pmap(_config, jobs, ctx.workers, chunksize=4):
+    for natoms in (9, 12, 15) + ((18,) if ctx.thorough else ()):
+        for npts in (natoms // 2, natoms + 1, 2 * natoms + 3, natoms * natoms // 5 + 1, natoms * natoms // 3):
+            for order in (3,) + ((1, 2) if ctx.thorough else ()):
+                jobs.append(("many", natoms, npts, order, ctx.seed))
+    for res in lattice.pmap(_dispatch, jobs, ctx.workers, chunksize=4):
         if len(ctx.samples) > 8:
             res["samples"] = []
         ctx.merge(res)
@@ -427,4 +505,6 @@ def replay(ctx, case):
         return explore.replay_history(ctx, case)
     if case.get("route") == "hirshfeld":
         return hirshfeld(ctx)
+    if case.get("route") == "many":
+        return ctx.merge(_many_case((case["natoms"], case["npoints"], case["order"], ctx.seed)))
     ctx.merge(_config((case["geometry"], tuple(case["atnums"]), case["order"], ctx.seed, True)))
